@@ -309,7 +309,21 @@ fn cmd_check(a: &Args) -> i32 {
         // a stack overflow or an abort in the unoptimised library must leave a replayable case behind
         env.park = true;
     }
-    let res = checks::run(&mut env).expect("registered property");
+    let res = if env.only.is_empty() {
+        checks::run(&mut env).expect("registered property")
+    } else {
+        // on a thread with the stack a spawned thread (a tokio worker, a std::thread) gets by default, not on the main
+        // thread's 8 MiB
+        let envp = &mut env;
+        std::thread::scope(|sc| {
+            std::thread::Builder::new()
+                .stack_size(2 << 20)
+                .spawn_scoped(sc, move || checks::run(envp).expect("registered property"))
+                .expect("spawn")
+                .join()
+                .unwrap_or(Err(run::Stop))
+        })
+    };
     if !env.only.is_empty() {
         // (a child run of selected sub-checks: which classes must be reached is the parent's business)
         env.required_clear();
